@@ -521,3 +521,220 @@ def _(repo):
     c = one(tail, "counter reset")
     out.append(f"Definition gen_rar_step_counter : Z := {zexpr(c.args[2], env)}.")
     return "\n".join(out)
+
+
+# =============================================================== G_solve (C07, C18, C19)
+header("G_solve", ZHDR)
+
+
+def _stmt_index(body, pred):
+    for k, s in enumerate(body):
+        if pred(s):
+            return k
+    raise Untranslatable("statement not found")
+
+
+@anchor("G_solve", "one_iteration")
+def _(repo):
+    mod = parse(repo, SOLVE)
+    f = find_func(mod, "_one_iteration")
+    body = strip_doc(f.body)
+    src = lambda s: ast.unparse(s)
+    # phase order: draw -> gradient step -> validation -> RAR -> store -> increment
+    k_draw = _stmt_index(body, lambda s: isinstance(s, ast.Assign) and src(s.value).startswith("get_batch(train_data.data, train_data.param_data, train_data.obs_data)"))
+    k_grad = _stmt_index(body, lambda s: isinstance(s, ast.Assign) and src(s.value).startswith("_gradient_step("))
+    k_val = _stmt_index(body, lambda s: isinstance(s, ast.If) and src(s.test) == "validation is not None")
+    k_rar = _stmt_index(body, lambda s: isinstance(s, ast.Assign) and src(s.value).startswith("trigger_rar("))
+    k_store = _stmt_index(body, lambda s: isinstance(s, ast.Assign) and src(s.value).startswith("_store_loss_and_params("))
+    k_inc = _stmt_index(body, lambda s: isinstance(s, ast.AugAssign) and src(s.target) == "i")
+    order_ok = k_draw < k_grad < k_val < k_rar < k_store < k_inc
+    g = body[k_grad]
+    grad_ok = (src(g.targets[0]).replace(" ", "") == "(loss,train_loss_value,loss_terms,params,opt_state,last_non_nan_params)"
+               and [src(a) for a in g.value.args] == ["loss", "optimizer", "batch", "optimization.params", "optimization.opt_state", "optimization.last_non_nan_params"])
+    d = body[k_draw]
+    draw_ok = src(d.targets[0]).replace(" ", "") == "(batch,data,param_data,obs_data)"
+    v = body[k_val]
+    c = one([n for n in ast.walk(wrap(v.body)) if isinstance(n, ast.Call) and src(n.func) == "jax.lax.cond" and "call_every" in src(n.args[0])], "validation cond")
+    env = {"i": "i", "validation.call_every": "call_every"}
+    due = zexpr(c.args[0], env)
+    call_ok = src(c.args[1]) == "lambda operands: operands[0](*operands[1:])" and src(c.args[3]).replace(" ", "") == "(validation,params)"
+    skip = c.args[2]
+    if not isinstance(skip, ast.Lambda) or not isinstance(skip.body, ast.Tuple) or len(skip.body.elts) != 4:
+        raise Untranslatable("skip branch of the validation cond changed")
+    e0, e1, e2, e3 = skip.body.elts
+    if src(e0) != "operands[0]" or src(e1) != "False" or src(e3) != "False":
+        raise Untranslatable("skip branch returns " + src(skip.body))
+    if not (isinstance(e2, ast.Subscript) and src(e2.value) == "validation_crit_values"):
+        raise Untranslatable("carried criterion is not read from validation_crit_values")
+    carry = zexpr(e2.slice, env)
+    tgt = one([s for s in v.body if isinstance(s, ast.Assign) and s.value is c], "cond target")
+    tgt_ok = src(tgt.targets[0]).replace(" ", "") == "(validation,early_stopping,validation_criterion,update_best_params)"
+    st = one([s for s in v.body if isinstance(s, ast.Assign) and src(s.targets[0]) == "validation_crit_values"], "criterion store")
+    if not (isinstance(st.value, ast.Call) and src(st.value.func).startswith("validation_crit_values.at[") and src(st.value.func).endswith("].set") and src(st.value.args[0]) == "validation_criterion"):
+        raise Untranslatable("criterion store changed")
+    crit_idx = zexpr(st.value.func.value.slice, env)
+    bc = one([s for s in v.body if isinstance(s, ast.Assign) and src(s.targets[0]) == "best_val_params"], "best params")
+    best_ok = (src(bc.value.func) == "jax.lax.cond" and src(bc.value.args[0]) == "update_best_params" and src(bc.value.args[1]) == "lambda _: params"
+               and src(bc.value.args[2]) == "lambda operands: operands[0].best_val_params" and src(bc.value.args[3]).replace(" ", "") == "(optimization_extra,)")
+    else_ok = sorted(src(s) for s in v.orelse) == ["best_val_params = params", "early_stopping = False"]
+    r = body[k_rar]
+    rar_ok = src(r.targets[0]).replace(" ", "") == "(loss,params,data)" and [src(a) for a in r.value.args] == ["i", "loss", "params", "data", "_rar_step_true", "_rar_step_false"]
+    s_ = body[k_store]
+    store_ok = ([src(a) for a in s_.value.args] == ["i", "params", "stored_objects.stored_params", "loss_container.stored_loss_terms", "loss_container.train_loss_values", "train_loss_value", "loss_terms", "tracked_params"]
+                and src(s_.targets[0]).replace(" ", "") == "(stored_params,stored_loss_terms,train_loss_values)")
+    inc = body[k_inc]
+    nxt = zexpr(ast.BinOp(left=ast.Name("i", ast.Load()), op=inc.op, right=inc.value), env)
+    ret = src(one(returns(f), "return")).replace(" ", "").replace("\n", "")
+    ret_ok = ret == ("(i,loss,OptimizationContainer(params,last_non_nan_params,opt_state),OptimizationExtraContainer(curr_seq,best_val_params,early_stopping),"
+                     "DataGeneratorContainer(data,param_data,obs_data),validation,LossContainer(stored_loss_terms,train_loss_values),StoredObjectContainer(stored_params),validation_crit_values)")
+    flags = dict(order_ok=order_ok, grad_ok=grad_ok, draw_ok=draw_ok, call_ok=call_ok, tgt_ok=tgt_ok, best_ok=best_ok, else_ok=else_ok, rar_ok=rar_ok, store_ok=store_ok, ret_ok=ret_ok)
+    return (f"Definition gen_val_due (i call_every : Z) : bool := {due}.\n"
+            f"Definition gen_carry_idx (i : Z) : Z := {carry}.\n"
+            f"Definition gen_store_crit_idx (i : Z) : Z := {crit_idx}.\n"
+            f"Definition gen_next_i (i : Z) : Z := {nxt}.\n"
+            f"(* {flags} *)\n"
+            f"Definition gen_iteration_wiring : bool := {'true' if all(flags.values()) else 'false'}.")
+
+
+@anchor("G_solve", "store")
+def _(repo):
+    f = find_func(parse(repo, SOLVE), "_store_loss_and_params")
+    src = ast.unparse(f)
+    env = {"i": "i"}
+    def at_idx(pattern_prefix, what):
+        hits = [n for n in ast.walk(f) if isinstance(n, ast.Call) and isinstance(n.func, ast.Attribute) and n.func.attr == "set"
+                and isinstance(n.func.value, ast.Subscript) and ast.unparse(n.func.value.value) == pattern_prefix + ".at"]
+        h = one(hits, what)
+        return zexpr(h.func.value.slice, env), ast.unparse(h.args[0])
+    ip, vp = at_idx("ope[0]", "tracked store")
+    it, vt = at_idx("stored_term", "term store")
+    il, vl = at_idx("train_loss_values", "loss store")
+    ok = (vp == "ope[1]" and vt == "loss_term" and vl == "train_loss_val"
+          and "jax.lax.cond(tracked_param, lambda ope: ope[0].at[" in src and "lambda ope: ope[0], (stored_value, param))" in src
+          and "None if stored_value is None else" in src
+          and ast.unparse(one(returns(f), "return")).replace(" ", "") == "(stored_params,stored_loss_terms,train_loss_values)")
+    return (f"Definition gen_store_tracked_idx (i : Z) : Z := {ip}.\nDefinition gen_store_terms_idx (i : Z) : Z := {it}.\n"
+            f"Definition gen_store_loss_idx (i : Z) : Z := {il}.\nDefinition gen_store_wiring : bool := {'true' if ok else 'false'}.")
+
+
+@anchor("G_solve", "gradient_step")
+def _(repo):
+    f = find_func(parse(repo, SOLVE), "_gradient_step")
+    body = [ast.unparse(s) for s in strip_doc(f.body)]
+    want = ["value_grad_loss = jax.value_and_grad(loss, has_aux=True)",
+            "(loss_val, loss_terms), grads = value_grad_loss(params, batch)",
+            "updates, opt_state = optimizer.update(grads, opt_state, params)",
+            "params = optax.apply_updates(params, updates)"]
+    order_ok = body[:4] == want
+    c = one(calls_to(f, "jax.lax.cond"), "cond")
+    test = ast.unparse(c.args[0])
+    a1, a2 = ast.unparse(c.args[1]), ast.unparse(c.args[2])
+    if test != "_check_nan_in_pytree(params)":
+        raise Untranslatable("NaN test is on " + test)
+    if (a1, a2) == ("lambda _: last_non_nan_params", "lambda _: params"):
+        keep = "(if nan then last else new)"
+    elif (a1, a2) == ("lambda _: params", "lambda _: last_non_nan_params"):
+        keep = "(if nan then new else last)"
+    else:
+        raise Untranslatable("branches of the last_non_nan cond changed")
+    tgt = one([s for s in f.body if isinstance(s, ast.Assign) and s.value is c], "cond target")
+    ret = ast.unparse(one(returns(f), "return")).replace(" ", "")
+    ok = order_ok and ast.unparse(tgt.targets[0]) == "last_non_nan_params" and ret == "(loss,loss_val,loss_terms,params,opt_state,last_non_nan_params)"
+    return (f"Definition gen_keep_last_non_nan {{P : Type}} (nan : bool) (last new : P) : P := {keep}.\n"
+            f"Definition gen_gradient_wiring : bool := {'true' if ok else 'false'}.")
+
+
+@anchor("G_solve", "break_fun")
+def _(repo):
+    f = find_func(parse(repo, SOLVE), "break_fun")
+    env = {"i": "i", "n_iter": "n_iter"}
+    def cond_of(name):
+        c = one(assigns(f, name), name)
+        if ast.unparse(c.func) != "jax.lax.cond" or not ast.unparse(c.args[1]).startswith("lambda _: stop_while_loop(") or ast.unparse(c.args[2]) != "continue_while_loop":
+            raise Untranslatable(name + " is not cond(test, stop, continue)")
+        return c.args[0]
+    t1 = zexpr(cond_of("bool_max_iter"), env)
+    t2 = ast.unparse(cond_of("bool_nan_in_params"))
+    t3 = ast.unparse(cond_of("bool_early_stopping"))
+    if t2 != "_check_nan_in_pytree(optimization.params)" or t3 != "optimization_extra.early_stopping":
+        raise Untranslatable(f"stop tests changed: {t2}; {t3}")
+    sw = find_func(parse(repo, SOLVE), "stop_while_loop"); cw = find_func(parse(repo, SOLVE), "continue_while_loop")
+    if ast.unparse(one(returns(sw), "r")) != "False" or ast.unparse(one(returns(cw), "r")) != "True":
+        raise Untranslatable("stop/continue return values changed")
+    r = ast.unparse(one(returns(f), "return")).replace(" ", "").replace("\n", "")
+    if r != "jax.tree_util.tree_reduce(lambdax,y:jnp.logical_and(jnp.array(x),jnp.array(y)),(bool_max_iter,bool_nan_in_params,bool_early_stopping))":
+        raise Untranslatable("the three conditions are not conjoined")
+    un = ast.unparse(one([s for s in f.body if isinstance(s, ast.Assign) and "carry" == ast.unparse(s.value)], "carry unpacking").targets[0]).replace(" ", "")
+    if un != "(i,_,optimization,optimization_extra,_,_,_,_,_)":
+        raise Untranslatable("carry layout changed")
+    return f"Definition gen_continue (i n_iter : Z) (nan early : bool) : bool := (negb {t1}) && (negb nan) && (negb early)."
+
+
+@anchor("G_solve", "solve_frame")
+def _(repo):
+    f = find_func(parse(repo, SOLVE), "solve")
+    src = ast.unparse(f)
+    pieces = ["data, _rar_step_true, _rar_step_false = init_rar(data)",
+              "batch_ini, data, param_data, obs_data = get_batch(data, param_data, obs_data)",
+              "train_loss_values = jnp.zeros(n_iter)",
+              "optimization = OptimizationContainer(params=init_params, last_non_nan_params=init_params, opt_state=opt_state)",
+              "optimization_extra = OptimizationExtraContainer(curr_seq=curr_seq, best_val_params=init_params)",
+              "iteration = 0",
+              "carry = jax.lax.while_loop(break_fun, _one_iteration, carry)",
+              "opt_state = optimizer.init(init_params)"]
+    ok = all(p in src for p in pieces) and src.index(pieces[0]) < src.index(pieces[1])
+    ret = ast.unparse(one([r for r in returns(f)], "return")).replace(" ", "").replace("\n", "")
+    ret_ok = ret == ("(optimization.last_non_nan_params,loss_container.train_loss_values,loss_container.stored_loss_terms,train_data.data,loss,"
+                     "optimization.opt_state,stored_objects.stored_params,validation_crit_valuesifvalidationisnotNoneelseNone,optimization_extra.best_val_paramsifvalidationisnotNoneelseNone)")
+    gb = find_func(parse(repo, SOLVE), "get_batch")
+    gsrc = [ast.unparse(s) for s in strip_doc(gb.body)]
+    gb_ok = gsrc[0] == "data, batch = data.get_batch()" and "param_data.get_batch()" in gsrc[1] and "obs_data.get_batch()" in gsrc[2] and gsrc[3] == "return (batch, data, param_data, obs_data)"
+    return f"Definition gen_solve_frame_wiring : bool := {'true' if (ok and ret_ok and gb_ok) else 'false'}."
+
+
+# =============================================================== G_validation (C19)
+header("G_validation", ZHDR)
+
+
+@anchor("G_validation", "validation_loss")
+def _(repo):
+    f = find_func(parse(repo, VAL), "__call__", "ValidationLoss")
+    conds = calls_to(f, "jax.lax.cond")
+    if len(conds) != 2:
+        raise Untranslatable("expected two conds")
+    c1, c2 = conds
+    imp = c1.args[0]
+    if not (isinstance(imp, ast.Compare) and len(imp.ops) == 1 and ast.unparse(imp.left) == "validation_loss_value" and ast.unparse(imp.comparators[0]) == "self.best_val_loss"):
+        raise Untranslatable("improvement test changed")
+    op = {ast.Lt: "QLt", ast.LtE: "QLe", ast.Gt: "QGt", ast.GtE: "QGe"}.get(type(imp.ops[0]))
+    if op is None:
+        raise Untranslatable("improvement comparison")
+    y, n = c1.args[1], c1.args[2]
+    if ast.unparse(y) != "lambda _: (jnp.array(0.0), validation_loss_value, True)":
+        raise Untranslatable("improvement branch changed: " + ast.unparse(y))
+    if ast.unparse(n) != "lambda operands: (operands[0] + 1, operands[1], False)" or ast.unparse(c1.args[3]).replace(" ", "") != "(self.counter,self.best_val_loss)":
+        raise Untranslatable("non-improvement branch changed")
+    tgt = one([s for s in f.body if isinstance(s, ast.Assign) and s.value is c1], "target")
+    if ast.unparse(tgt.targets[0]).replace(" ", "") != "(counter,best_val_loss,update_best_params)":
+        raise Untranslatable("cond target changed")
+    st = c2.args[0]
+    if not (ast.unparse(st.func) == "jnp.logical_and" and len(st.args) == 2):
+        raise Untranslatable("stop test changed")
+    a, b = [x.args[0] if (isinstance(x, ast.Call) and ast.unparse(x.func) == "jnp.array") else x for x in st.args]
+    env = {"self.counter": "old_counter", "counter": "new_counter", "self.patience": "patience"}
+    stop_cmp = zexpr(a, env)
+    if ast.unparse(b) != "self.early_stopping" or ast.unparse(c2.args[1]) != "lambda _: True" or ast.unparse(c2.args[2]) != "lambda _: False":
+        raise Untranslatable("stop cond changed")
+    src = ast.unparse(f)
+    wiring = ("new = eqx.tree_at(lambda t: t.counter, new, counter)" in src and "new = eqx.tree_at(lambda t: t.best_val_loss, new, best_val_loss)" in src
+              and "validation_loss_value, _ = self.loss(params, val_batch)" in src
+              and ast.unparse(one(returns(f), "return")).replace(" ", "") == "(new,bool_early_stopping,validation_loss_value,update_best_params)"
+              and "validation_data, val_batch = self.validation_data.get_batch()" in src
+              and "new = eqx.tree_at(lambda t: t.validation_data, self, validation_data)" in src)
+    cls = [n for n in ast.walk(parse(repo, VAL)) if isinstance(n, ast.ClassDef) and n.name == "ValidationLoss"][0]
+    csrc = ast.unparse(cls)
+    init_ok = "default_factory=lambda: jnp.array(jnp.inf)" in csrc and "default_factory=lambda: jnp.array(0.0)" in csrc
+    return (f"Definition gen_val_improves : cmpop := {op}.\n"
+            f"Definition gen_val_counter_reset : Z := 0.\nDefinition gen_val_counter_incr (c : Z) : Z := (c + 1).\n"
+            f"Definition gen_val_stop (old_counter new_counter patience : Z) (early_stopping : bool) : bool := {stop_cmp} && early_stopping.\n"
+            f"Definition gen_validation_wiring : bool := {'true' if (wiring and init_ok) else 'false'}.")
